@@ -96,11 +96,23 @@ def main():
         for _, p in placed:
             os.rename(p, p + '.off')
         ok_suite = False
-        for attempt in range(2):   # internal/curves has wall-clock dependent tests that flake under load
-            rc, out = sh(['go', 'test', '-modfile=' + modfile, '-vet=off', '-count=1', './...'], cwd=wt, timeout=2400)
-            if rc == 0:
-                ok_suite = True
-                break
+        rc, out = sh(['go', 'test', '-modfile=' + modfile, '-vet=off', '-count=1', './...'], cwd=wt, timeout=2400)
+        ok_suite = rc == 0
+        if not ok_suite:
+            # internal/curves has wall-clock dependent PID tests that flake under load (also on the unchanged tree):
+            # re-run only the failed packages, alone, a few times
+            failed = re.findall(r'^FAIL[ \t]+(\S+)[ \t]', out, re.M)
+            ok_suite = bool(failed) and '[build failed]' not in out
+            for pkg in failed:
+                good = False
+                for attempt in range(5):
+                    rc2, out2 = sh(['go', 'test', '-modfile=' + modfile, '-vet=off', '-count=1', '-p', '1', pkg], cwd=wt, timeout=1200)
+                    if rc2 == 0:
+                        good = True
+                        break
+                    out = out2
+                ok_suite = ok_suite and good
+            meta['suite_flaky_packages_rerun'] = failed
         meta['existing_suite_passes'] = ok_suite
         if not ok_suite:
             meta['suite_log_tail'] = out[-1500:]
